@@ -512,7 +512,8 @@ fn run_case(case: &Value, idx: usize, ctx: &tls::TlsCtx, other: &(Endpoint, Endp
     phase("setup");
     if let Err(msg) = guarded(|| run_case_inner(case, idx, ctx, other, cfg, events)) {
         if events.is_empty() {
-                }
+            events.push(json!({"ev": "reset", "case": case, "idx": idx}));
+        }
         events.push(json!({"ev": "panic", "phase": cur_phase_name(), "op": [cur_phase_name(), case["ty"], idx], "n": 1, "msg": msg, "case": case}));
     }
 }
@@ -546,7 +547,6 @@ fn run_case_inner(case: &Value, idx: usize, ctx: &tls::TlsCtx, other: &(Endpoint
     }
     let rx_other = Receiver::new(&other.1, ArcKeys::with_keys(ctx.initial_keys(&other_dcid, rustls::Side::Server).into()));
 
-    events.push(json!({"ev": "reset", "case": case, "idx": idx}));
     let sp: &'static str = match ty {
         "initial" => "initial",
         "zerortt" => "zerortt",
